@@ -388,6 +388,7 @@ def run_miri_slice(prop, tier, seed, cfg):
         cmd, env = miri_cmd(cfg["bin"], args, seed=seed * 1000 + i, extra_flags=flags)
         jobs.append((cmd, env))
     timeout = m.get("timeout", 900)
+    tm0 = time.time()
     with ThreadPoolExecutor(max_workers=NSHARDS) as ex:
         results = list(ex.map(lambda j: run_proc(j[0], j[1], timeout), jobs))
     reports, problems = [], []
@@ -405,7 +406,7 @@ def run_miri_slice(prop, tier, seed, cfg):
     info = {"ran": True, "processes": n, "cases_per_process": cases,
             "miri_seeds": [seed * 1000 + i for i in range(n)],
             "evaluations": sum(r.get("evaluations", 0) for r in reports),
-            "undefined_behaviour_reports": len(ub)}
+            "undefined_behaviour_reports": len(ub), "wall_s": round(time.time() - tm0, 1)}
     for u in ub:
         reports.append({"violations": [{"property": prop, "sig": "miri-report",
                                         "what": "Miri reported: " + u[-1500:],
